@@ -734,7 +734,8 @@ class Purge:
         if ev.get("field") == "links" and self.entry_kind != "rc_drop":
             return self._discard(eng, ev, st)
         if ev.box == self.self_box and st.strong(ev.box) <= DEAD and st.empty(ev.box) is not True and not is_elem_box(ev.box):
-            if ("g_nonempty",) in st.flags and ("purged", self.self_box) not in st.flags:
+            # (the table was seen non-empty, or the path never looked at it at all)
+            if (("g_nonempty",) in st.flags or ("g_empty",) not in st.flags) and ("purged", self.self_box) not in st.flags:
                 eng.violate("SYM-3", "destroy-without-purge", "an object with adoption links is torn down without first purging itself from its peers' tables", ev.b, st)
         return None
 
